@@ -79,8 +79,8 @@ M = [
      "        elif component == ColorComponentType.DOUBLE_UNDERLINE:\n            return [\n                AnsiSetting(AnsiParam.DOUBLE_UNDERLINE.value),\n                AnsiSetting(__class__.SET_UNDERLINE_COLOR_256.fn(val))",
      "        elif component == ColorComponentType.DOUBLE_UNDERLINE:\n            return [\n                AnsiSetting(AnsiParam.UNDERLINE.value),\n                AnsiSetting(__class__.SET_UNDERLINE_COLOR_256.fn(val))"),
     ('name-lookup-no-hyphen', S, "AnsiFormat[format.upper().replace(' ', '_').replace('-', '_')]", "AnsiFormat[format.upper().replace(' ', '_')]"),
-    ('selflist-check-only-top-level', S, "                settings_out += __class__._scrub_ansi_settings(setting, make_unique, parsed_ids)",
-     "                settings_out += __class__._scrub_ansi_settings(setting, make_unique)"),
+    ('selflist-check-only-top-level', S, "                settings_out += __class__._scrub_ansi_settings(setting, make_unique, parsed_ids, False)",
+     "                settings_out += __class__._scrub_ansi_settings(setting, make_unique, combine_ints=False)"),
     ('negative-int-accepted', S, "        if ansi_format < 0:\n            raise ValueError", "        if ansi_format < -1:\n            raise ValueError"),
     ('settings-to-dict-clear-keeps', P, "                if effect in settings_dict:\n                    del settings_dict[effect]",
      "                if effect in settings_dict and len(settings_dict) > 1:\n                    del settings_dict[effect]"),
